@@ -41,7 +41,8 @@ COMPONENTS = {
     "stub": ["urn / null population", "draw-order scheduler"],
 }
 PROBES = ["null mean hit 0", "null mean > u", "alternative clipped at u", "test raised", "NaN reported",
-          "mean exactly t", "P(M<=v) == v attained (tight)", "some ordering rejects at 0.05", "audit-like urn (N > 9)"]
+          "mean exactly t", "P(M<=v) == v attained (tight)", "some ordering rejects at 0.05", "audit-like urn (N > 9)",
+          "rounds on one test object and one buffer"]
 # (the probe "anticipation probe fired -> deep enumeration" must stay at zero on a correct tree; it is not listed)
 LEVELS = [0.001, 0.01, 0.05, 0.1, 0.2, 0.5]
 _bcache = {}
@@ -127,7 +128,14 @@ def generate(rng, tier):
         for _ in range(2):
             ls.add(rng.randint(1, N))
         case["lengths"] = sorted(ls)
-    elif kind == "exact-iid":
+    if kind == "exact-finite":
+        # an audit in rounds: one test object per audit, p-values asked for after n1 < n2 < ... draws on views of
+        # one growing buffer.  Shared state between the calls (attributes written by a call, padding applied in
+        # place) can make a later round's value depend on what an earlier round looked at.
+        case["rounds_mode"] = bool(D.n_orderings(case["pop"]) <= 700 and rng.chance(0.3))
+        if case["rounds_mode"] and len(case["lengths"]) < 2 and case["N"] >= 2:
+            case["lengths"] = sorted(set(case["lengths"]) | {rng.randint(1, case["N"] - 1)})
+    if kind == "exact-iid":
         k = rng.randint(1, 3)
         for _ in range(200):
             q = 64
@@ -148,7 +156,7 @@ def generate(rng, tier):
         case["law"] = {"atoms": [a / q for a in atoms], "weights": w, "denominator": p2}
         n = rng.randint(1, 7 if len(atoms) <= 2 else 6)
         case["n"] = n
-    else:
+    elif kind == "sampled":
         N = rng.randint(10, cfg_t["Nmax"])
         if mode == "finite":
             pop, exact = D.gen_null_population(rng, N, u, t, bits=6)
@@ -174,9 +182,17 @@ def generate(rng, tier):
 
 
 # --------------------------------------------------------------------------- execution
-def _observe(out, tst, x, stats_):
+def _observe(out, tst, x, stats_, raw=False):
     try:
-        p, h = D.call_test(tst, x)
+        if raw:  # hand the caller's own array (a view) to the test, as an audit in rounds does
+            import warnings
+            with warnings.catch_warnings():
+                warnings.simplefilter("ignore")
+                with np.errstate(all="ignore"):
+                    p, h = tst.test(x)
+            p, h = float(p), np.asarray(h, dtype=float)
+        else:
+            p, h = D.call_test(tst, x)
     except Exception as e:
         out.raised("test", e)
         out.probe("test raised")
@@ -188,8 +204,8 @@ def _observe(out, tst, x, stats_):
     return m
 
 
-def _check_exact(out, dist, total, cfg, mode, label):
-    path = f"{D.combo_name(cfg)}/{mode}"
+def _check_exact(out, dist, total, cfg, mode, label, suffix=""):
+    path = f"{D.combo_name(cfg)}/{mode}{suffix}"
     if any(v <= 0 for v in dist):
         w = sum(wt for v, wt in dist.items() if v <= 0)
         out.violate("C01.a1" if mode == "finite" else "C01.b1", path,
@@ -227,7 +243,28 @@ def execute(case):
         if abs(sum(pop) - N * cfg["t"]) == 0:
             out.probe("mean exactly t")
         moved = False
-        for n in case["lengths"]:
+        if case.get("rounds_mode"):
+            out.probe("rounds on one test object and one buffer")
+            lens = sorted(case["lengths"])
+            dists = {n: {} for n in lens}
+            for o in orders:
+                t1 = D.make_test(ns, cfg, N)
+                buf = np.array(o, dtype=float)
+                for n in lens:
+                    m = _observe(out, t1, buf[:n], st, raw=True)
+                    out.units["draws"] += n
+                    out.units["test_calls"] += 1
+                    if m is not None:
+                        dists[n][m] = dists[n].get(m, 0) + 1
+            for n in lens:
+                dist = dists[n]
+                out.ev("dist-rounds", [n, sorted((float(v).hex(), w) for v, w in dist.items())])
+                if dist:
+                    if min(dist) < 1:
+                        moved = True
+                    _check_exact(out, dist, total, cfg, mode, f"N={N}, round ending after {n} draws (rounds {lens} on one "
+                                                              f"test object and buffer), population {pop}", suffix="/rounds")
+        for n in ([] if case.get("rounds_mode") else case["lengths"]):
             pref = {}
             for o in orders:
                 pref[o[:n]] = pref.get(o[:n], 0) + 1
@@ -271,6 +308,39 @@ def execute(case):
                 out.ev("deep", [dn, dk, hi, len(ddist)])
                 if ddist:
                     _check_exact(out, ddist, sum(ddist.values()), cfg, mode, f"deep urn N={dn}: {dn - dk} x {hi / q} + {dk} x 0")
+                if out.violations:
+                    break
+        # second adaptive probe: does a test object (or the caller's buffer) carry something from one round into
+        # the next?  If so, enumerate audits in rounds on standard balanced urns; verdict from the exact law only.
+        if _carries_state(ns, cfg, N, pop):
+            out.probe("carried-state probe fired -> deep rounds enumeration")
+            t_, u_ = cfg["t"], cfg["u"]
+            urns = []
+            if 2 * t_ <= u_:
+                urns = [([2 * t_] * 5 + [0.0] * 5, (2, 10)), ([2 * t_] * 4 + [0.0] * 4, (2, 8)), ([2 * t_] * 6 + [0.0] * 6, (3, 12))]
+            else:
+                for dn in range(4, 13):
+                    kk = dn * t_ / u_
+                    if abs(kk - round(kk)) < 1e-12 and 0 < round(kk) < dn:
+                        urns.append(([u_] * int(round(kk)) + [0.0] * (dn - int(round(kk))), (2, dn)))
+                urns = urns[-2:]
+            for dpop, lens in urns:
+                dn = len(dpop)
+                dd = {}
+                for o in D.distinct_orderings(dpop, 10 ** 6)[0]:
+                    t1 = D.make_test(ns, cfg, dn)
+                    buf = np.array(o, dtype=float)
+                    m = None
+                    for n in lens:
+                        m = _observe(out, t1, buf[:n], st, raw=True)
+                        out.units["test_calls"] += 1
+                    if m is not None:
+                        dd[m] = dd.get(m, 0) + 1
+                out.ev("deep-rounds", [dn, list(lens), len(dd)])
+                if dd:
+                    _check_exact(out, dd, sum(dd.values()), cfg, mode,
+                                 f"deep urn {dpop}: audit in rounds {list(lens)} on one test object and buffer, value reported "
+                                 f"after the last round", suffix="/rounds")
                 if out.violations:
                     break
         out.nontrivial = moved
@@ -365,6 +435,29 @@ def execute(case):
     return out
 
 
+def _carries_state(ns, cfg, N, pop):
+    """does evaluating a prefix first change what the full sample gives (same object, same buffer)?  probe only"""
+    import warnings
+    if len(pop) < 3:
+        return False
+    try:
+        x = np.array(sorted(pop, reverse=True), dtype=float)
+        x[1], x[-1] = x[-1], x[1]
+        with warnings.catch_warnings():
+            warnings.simplefilter("ignore")
+            with np.errstate(all="ignore"):
+                ha = np.asarray(D.make_test(ns, cfg, N).test(x.copy())[1], dtype=float)
+                tb = D.make_test(ns, cfg, N)
+                buf = x.copy()
+                tb.test(buf[:2])
+                hb = np.asarray(tb.test(buf)[1], dtype=float)
+        if not np.array_equal(buf, x):
+            return True
+        return len(ha) != len(hb) or any(not (a == b or (math.isnan(a) and math.isnan(b))) for a, b in zip(ha, hb))
+    except Exception:
+        return False
+
+
 def _anticipates(ns, cfg, N, pop):
     """does the alternative / bet applied to draw j change when only draw j changes?  (probe only - never a verdict)"""
     import warnings
@@ -418,6 +511,10 @@ def reducers(case):
     kind = case["kind"]
     if kind == "exact-finite":
         pop = case["pop"]
+        if case.get("rounds_mode"):
+            c = copy.deepcopy(case)
+            c["rounds_mode"] = False
+            yield c
         # drop an element (keeps mean <= t only if the dropped value >= t ... check)
         for i in range(len(pop)):
             if len(pop) <= 1:
